@@ -243,6 +243,28 @@ def regenerate():
     _regen_done = True
 
 
+def coqchk(vfiles, timeout=3000):
+    """Independent re-check (coqchk -o) of the compiled statement modules and all their
+    dependencies.  Returns (ok, one-line note)."""
+    mods = ["CAres." + v[:-2].replace("/", ".") for v in vfiles]
+    with Lock("coq"):
+        rc, out, err = sh(["coqchk", "-o", "-silent", "-Q", ".", "CAres"] + mods, cwd=COQ, timeout=timeout)
+    txt = out + err
+    m = re.search(r"\* Axioms:\s*(.*?)\n\s*\n", txt, re.S)
+    axioms = m.group(1).strip() if m else "?"
+    relaxed = []
+    for what in ("type-in-type", "unsafe (co)fixpoints", "positivity is assumed"):
+        mm = re.search(re.escape(what) + r":\s*(.*?)\n\s*\n", txt, re.S)
+        if not mm or mm.group(1).strip() != "<none>":
+            relaxed.append(what)
+    ok = rc == 0 and axioms == "<none>" and not relaxed
+    note = "modules %s re-checked with all dependencies: rc=%d axioms=%s relaxed-checks=%s" % (
+        ",".join(mods), rc, axioms.replace("\n", " ")[:200], ",".join(relaxed) or "none")
+    if rc != 0:
+        note += " | " + txt[-300:].replace("\n", " ")
+    return ok, note
+
+
 def coq_check_properties(vfile):
     """Compile one Properties_*.v directly, return (ok, theorems, assumptions, log).
     theorems: list of names; assumptions: dict name -> text printed by Print Assumptions."""
@@ -353,7 +375,7 @@ SAN_ENV = {
     "ASAN_OPTIONS": "detect_leaks=1:abort_on_error=0:exitcode=99:allocator_may_return_null=1:detect_stack_use_after_return=0",
     "UBSAN_OPTIONS": "print_stacktrace=1:halt_on_error=1:exitcode=98",
     "LSAN_OPTIONS": "exitcode=97",
-    "TSAN_OPTIONS": "exitcode=96:halt_on_error=0",
+    "TSAN_OPTIONS": "exitcode=96:halt_on_error=0:suppressions=" + os.path.join(ROOT, "harness", "tsan.supp"),
 }
 
 
@@ -376,11 +398,26 @@ def run_impl(binary, casefile, outfile, n_cases, timeout=1200, extra_args=(), ch
     if env_extra:
         env.update(env_extra)
     fails = []
+    retries = {}
     start = 0
     with open(outfile, "w") as fo:
         while start < n_cases:
             cmd = [binary, casefile, str(start)] + (["1"] if per_case else []) + list(extra_args)
             rc, out, err = sh(cmd, timeout=timeout, env=env)
+            if rc != 0 and re.search(r"Sanitizer: CHECK failed", err):
+                m0 = re.findall(r"^BEGIN (\d+)", out, re.M)
+                last0 = int(m0[-1]) if m0 else start
+                if retries.get(last0, 0) < 3:
+                    # an internal assertion of the sanitizer runtime itself (seen: TSan's report
+                    # construction, sanitizer_common.h "((i)) < ((size_))"): a tool failure, not
+                    # a finding about the library; keep the output of the cases that completed
+                    # and run the interrupted case again
+                    retries[last0] = retries.get(last0, 0) + 1
+                    log("[run] sanitizer runtime CHECK failed in case %d, retry %d" % (last0, retries[last0]))
+                    cut = out.rfind("BEGIN %d\n" % last0)
+                    fo.write(out[:cut] if cut >= 0 else "")
+                    start = last0
+                    continue
             fo.write(out)
             if rc == 0:
                 if per_case:
